@@ -142,10 +142,11 @@ class KcRun:
         return obs
 
 
-def allowed(reply, obs):
+def allowed(reply, obs, ideal=()):
+    """KcRegister!Conforms: as coded, or (deviation repaired) a satisfying certificate where the code answers nothing"""
     rs = {tuple(r) for r in reply}
     if not rs:
-        return len(obs) == 0
+        return len(obs) == 0 or (len(obs) == 1 and tuple(obs[0]) in {tuple(r) for r in ideal})
     return len(obs) == 1 and tuple(obs[0]) in rs
 
 
@@ -161,9 +162,10 @@ def signature(x, reply, obs):
     return 'X03/attach_keychain_register/%s/%s->%s' % (q_class(x), exp, got)
 
 
-def cfg(name, invs=INVS, witnesses=True):
+def cfg(name, quick, invs=INVS, witnesses=True):
     p = os.path.join(tlc.BUILD, name + '.cfg')
-    tlc.write_cfg(p, constants={'Ids': '{"a", "b"}', 'KeyIds': '{"k1"}', 'CertIds': '{"self", "ca"}'}, invariants=invs,
+    certs = '{"self", "ca"}' if quick else '{"self", "ca", "cb"}'
+    tlc.write_cfg(p, constants={'Ids': '{"a", "b"}', 'KeyIds': '{"k1"}', 'CertIds': certs}, invariants=invs,
                   constraints=['MarkW'] if witnesses else [], postcondition='PostW' if witnesses else None)
     return p
 
@@ -193,10 +195,11 @@ def replay_path(g, init, path):
             if act == 'Ask':
                 n += 1
                 reply = [list(r) for r in state_of(g, dst)['reply']]
+                ideal = [list(r) for r in state_of(g, dst)['ideal']]
                 if run.problems:
                     return n, {'step': step, 'act': act, 'args': args, 'sig': 'X03/attach_keychain_register/%s/internal-error' % q_class(args[0]),
                                'what': 'Interest %s: %s' % (json.dumps(args[0]), run.problems)}
-                if not allowed(reply, obs):
+                if not allowed(reply, obs, ideal):
                     return n, {'step': step, 'act': act, 'args': args, 'sig': signature(args[0], reply, obs),
                                'what': 'Interest %s: the model allows %s, the application sent %s' % (json.dumps(args[0]), sorted(reply), obs)}
         return n, None
@@ -212,9 +215,9 @@ def check(ctx):
     t0 = time.perf_counter()
     # one TLC run serves A (statements as invariants, witnesses through MarkW / PostW, one worker) and B (state graph)
     from harness.facekit import light_graph
-    g = light_graph('KcRegister', cfg('x03-kc'), 'x03kcg', parse_states=False)
+    g = light_graph('KcRegister', cfg('x03-kc', ctx.quick), 'x03kcg', parse_states=False)
     r = g.tlc
-    ctx.add_tlc('KcRegister 2 identities (nested), 1 key, 2 certificates', r)
+    ctx.add_tlc('KcRegister 2 identities (nested), 1 key, %d certificates' % ctx.pick(2, 3), r)
     if r.violated == 'postcondition' or 'VACUOUS' in r.out:
         raise tlc.MachineryError('vacuous: a witness of KcRegister is not reachable:\n%s' % r.out[-1200:])
     if r.violated:
